@@ -3,7 +3,7 @@
    line).  The encodings are defined here, in Coq, and mirrored by the Rust harness; the OCaml
    driver only reads and prints numbers. *)
 From Coq Require Import FMapPositive.
-From Lace Require Import Word Machine Isa Vm.
+From Lace Require Import Word Machine Isa Vm RunProofs.
 
 (* ------------------------------------------------------------------ *)
 (** * Helpers *)
@@ -98,3 +98,44 @@ Definition run_c02 (spec : bool) (args : list N) : list (list N) :=
   let '(feat, st0, wlo, whi) := c02_state args in
   c02_words (N.to_nat (whi + 1 - wlo)) wlo
     (fun w => enc_result st0 (if spec then step feat (decode w) st0 else execute feat w st0)).
+
+(* ------------------------------------------------------------------ *)
+(** * C03: load an image and run it under a fetch budget.
+
+    case  = feat fuel nraw raw*nraw ninp byte*ninp
+    line  = kind code [state relative to an all-zero memory] nfetch tracehash
+            kind: 0 finished, 1 exit, 2 panic, 3 hung, 4 out of fuel, 5 rejected by the loader *)
+
+Definition trace_hash (tr : list (N * N)) : N :=
+  fold_right (fun aw h => (h * 31 + fst aw * 65536 + snd aw) mod 2147483647) 7 tr.
+
+Definition zero_state : state := mkState (mkRegs 0 0 0 0 0 0 0 0) 0 0 mem_zero 0 [] [].
+
+Definition enc_vm (r : vm_result * list (N * N)) : list N :=
+  let '(res, tr) := r in
+  let tail := [N.of_nat (length tr); trace_hash tr] in
+  match res with
+  | VFinished st => 0 :: 0 :: enc_state zero_state st ++ tail
+  | VExit c st => 1 :: c :: enc_state zero_state st ++ tail
+  | VPanic st => 2 :: 0 :: enc_state zero_state st ++ tail
+  | VHung => [3]
+  | VOutOfFuel st => 4 :: 0 :: enc_state zero_state st ++ tail
+  end.
+
+Definition run_c03 (spec : bool) (args : list N) : list (list N) :=
+  let feat := negb (hdN args =? 0) in
+  let fuel := N.to_nat (hdN (tlN args)) in
+  let nraw := hdN (tlN (tlN args)) in
+  let '(raw, rest) := take (N.to_nat nraw) (tlN (tlN (tlN args))) in
+  let ninp := hdN rest in
+  let '(inp, _) := take (N.to_nat ninp) (tlN rest) in
+  if spec then
+    match load raw inp with
+    | None => [[5; 238]]
+    | Some st => let r := run feat fuel st [] in [enc_vm (RunProofs.to_vm (fst r), snd r)]
+    end
+  else
+    match from_raw raw inp with
+    | LoadExit c => [[5; c]]
+    | Loaded st => [enc_vm (vm_run feat fuel st [])]
+    end.
